@@ -5,8 +5,9 @@
 //	vh-chart --replay replays/C30-xxxx.json     (file written by vlib.Check.violation, or a case file)
 //
 // Output: NDJSON on stdout, one line per case with disagreements (all cases with --verbose) and a
-// final {"summary":{...}} line. Exit 0 when the run completed (disagreements are data), 2 on
-// harness problems (bad input, failing self test, abstraction table not faithful).
+// final {"summary":{...}} line. Exit 0 when the run completed (disagreements are data; with --replay:
+// exit 1 when the recorded disagreement reproduces), 2 on harness problems (bad input, failing self
+// test, abstraction table not faithful).
 package main
 
 import (
@@ -226,5 +227,8 @@ func main() {
 	out.Flush()
 	if len(sum.HeaderErrors) > 0 || len(sum.SelfTestErrors) > 0 {
 		os.Exit(2)
+	}
+	if *replayPath != "" && sum.CasesDisagreeing > 0 {
+		os.Exit(1) // the recorded violation reproduces
 	}
 }
